@@ -425,10 +425,18 @@ fn error_kind(p: &str) -> String {
         ("NonExistentJumpTarget", true) => vec![0x60, 1, 0x60, 0xff, 0x57, 0x00],
         ("NoConcreteJumpDestination", false) => vec![0x36, 0x56],
         ("NoConcreteJumpDestination", true) => vec![0x60, 1, 0x36, 0x57, 0x00],
-        ("GasLimitExceeded", _) => {
+        ("GasLimitExceeded", false) => {
             gas_limit = Some(2usize);
             vec![0x5b, 0x5b, 0x5b, 0x5b, 0x5b, 0x00]
         }
+        // the limit is crossed by the LAST instruction of the path (PUSH1 1 PUSH1 2 ADD = 9 gas)
+        ("GasLimitExceeded", true) => {
+            gas_limit = Some(7usize);
+            vec![0x60, 1, 0x60, 2, 0x01]
+        }
+        // stack underflow raised by the jump instruction itself
+        ("StackUnderflowAtJump", false) => vec![0x56],
+        ("StackUnderflowAtJump", true) => vec![0x60, 1, 0x57, 0x00],
         // stack underflow
         _ => vec![0x50, 0x00],
     };
@@ -462,15 +470,41 @@ fn rejected_jump_falls_through(p: &str) -> String {
         visits[3] > 0 || visits[8] > 0, visits[3], ok, err, hex(&code))
 }
 
-/// VMThread::fork must carry the gas already consumed over to the new thread.
+/// VMThread::fork must carry the gas already consumed over to the new thread and start it at the target, for every
+/// target inside the code (the last byte included).
 fn fork_gas(_p: &str) -> String {
-    let code = [0x5bu8, 0x5b, 0x00];
+    let code = [0x5bu8, 0x5b, 0x5b, 0x5b];
     let stream = InstructionStream::try_from(code.as_slice()).expect("disassembles");
     let mut vm = VM::new(stream, Config::default(), LazyWatchdog.in_rc()).expect("vm");
     let t = vm.current_thread_mut().expect("thread");
     t.consume_gas(15);
-    let f = t.fork(1);
-    format!("{{\"violates\": {}, \"parent_gas\": {}, \"forked_gas\": {}}}", f.gas_usage() != t.gas_usage(), t.gas_usage(), f.gas_usage())
+    let mut bad = Vec::new();
+    for target in 0..code.len() as u32 {
+        let f = t.fork(target);
+        if f.gas_usage() != t.gas_usage() {
+            bad.push(format!("fork({target}): gas {} instead of {}", f.gas_usage(), t.gas_usage()));
+        }
+        if f.instructions().instruction_pointer() != target {
+            bad.push(format!("fork({target}) starts at {}", f.instructions().instruction_pointer()));
+        }
+    }
+    format!("{{\"violates\": {}, \"problems\": \"{}\"}}", !bad.is_empty(), bad.join("; "))
+}
+
+/// Fork accounting across threads (fork limit 1, iteration limit 1): a target whose fork budget is used up must not be
+/// forked to again, whatever other threads do at JUMPIs to the same target.
+fn fork_budget(_p: &str) -> String {
+    let code: Vec<u8> = vec![0x36, 0x60, 0x08, 0x57, 0x36, 0x60, 0x0e, 0x57, 0x5b, 0x36, 0x60, 0x08, 0x57, 0x00, 0x5b, 0x36, 0x60, 0x08, 0x57, 0x00];
+    let mut config = Config::default();
+    config.maximum_forks_per_fork_target = 1;
+    config.maximum_iterations_per_opcode = 1;
+    let stream = InstructionStream::try_from(code.as_slice()).expect("disassembles");
+    let mut vm = VM::new(stream, config, LazyWatchdog.in_rc()).expect("vm");
+    let _ = vm.execute();
+    let forks_to_t = vm.stored_states().iter().filter(|s| [3u32, 12, 18].contains(&s.fork_point())).count();
+    let threads = vm.stored_states().len();
+    format!("{{\"violates\": {}, \"forks_to_target\": {}, \"fork_limit\": 1, \"threads\": {}, \"thread_bound\": 3}}",
+        forks_to_t > 1 || threads > 3, forks_to_t, threads)
 }
 
 /// A loop closed by an unconditional JUMP: JUMPDEST PUSH1 0 JUMP.  No offset may be visited more than the limit.
@@ -731,6 +765,7 @@ fn main() {
         "error_kind" => error_kind(&p),
         "rejected_jump_falls_through" => rejected_jump_falls_through(&p),
         "fork_gas" => fork_gas(&p),
+        "fork_budget" => fork_budget(&p),
         "jump_loop_visits" => jump_loop_visits(&p),
         "forest_step" => forest_step(&p),
         "analyze" => analyze(&p),
